@@ -53,6 +53,11 @@ def {NAME}({ARGS}) -> bool:
 '''
 
 
+def fam_fixed2(c):
+    """family O shards with two fixed leading steps carry hi = 1000 + second step code"""
+    return c[6].startswith('O') and c[5] >= 1000
+
+
 def is_program(c):
     return c[6].startswith('O')
 
@@ -67,11 +72,12 @@ def _okw(c, twin):
     allowx = 'x' in fam
     end = 4 + 4 * n + (3 if allowx else 0)
     first = 0 if (a0 >= 0 and not twin) else -1
-    a = [f'a{j}' for j in range(1 if first == 0 else 0, k)]
+    a1 = c[5] - 1000 if (first == 0 and fam_fixed2(c)) else -1
+    a = [f'a{j}' for j in range((2 if a1 >= 0 else 1) if first == 0 else 0, k)]
     v = [f'v{i}' for i in range(n)]
     d = ['dm'] if dmax < 0 else [f'd{j}' for j in range(k)]
     pre = [f'0 <= {x} <= {end}' for x in a] + [f'0 <= {x} <= {-dmax if dmax < 0 else dmax}' for x in d] + [f'0 <= uw <= {umax}']
-    steps = ([str(a0)] if first == 0 else []) + a
+    steps = ([str(a0)] if first == 0 else []) + ([str(a1)] if a1 >= 0 else []) + a
     return dict(ARGS=', '.join(f'{x}: int' for x in a + d + v + ['uw']), PRE=' and '.join(pre), P=P, N=n,
                 STEPS=', '.join(steps), DRAINS=', '.join(['dm'] * k) if dmax < 0 else ', '.join(d), VALS=', '.join(v),
                 OMAX=omax, ALLOWC=allowc, ALLOWX=allowx)
@@ -94,7 +100,7 @@ def argnames(c):
     mode, holder, P, n, lo, hi, fam, omax, dmax, umax = c
     if is_program(c):
         k = int(fam[1:].rstrip('cx'))
-        return ([f'a{j}' for j in range(1, k)] + (['dm'] if dmax < 0 else [f'd{j}' for j in range(k)])
+        return ([f'a{j}' for j in range(2 if fam_fixed2(c) else 1, k)] + (['dm'] if dmax < 0 else [f'd{j}' for j in range(k)])
                 + [f'v{i}' for i in range(n)] + ['uw'])
     a = ['perm'] + [f'o{i}' for i in range(n)]
     if dmax >= 0:
